@@ -1434,6 +1434,14 @@ def _register_constructor_args(ctx: VenomCodegenContext, func_t: ContractFunctio
     arg_types = [arg.typ for arg in func_t.positional_args]
     args_tuple_t = TupleT(tuple(arg_types))
 
+    # constructor arguments are appended to the initcode and read with
+    # codecopy, which zero-pads reads past the end of the code. ensure
+    # the (static part of the) argument tuple is actually present, the
+    # same way runtime entry points check calldatasize.
+    builder = ctx.builder
+    args_end = builder.add(IRLabel("code_end"), IRLiteral(args_tuple_t.abi_type.static_size()))
+    builder.assert_(builder.iszero(builder.lt(builder.codesize(), args_end)))
+
     # Create VyperValue pointing to data section tuple (starts at offset 0)
     ptr = Ptr(operand=IRLiteral(0), location=DataLocation.CODE)
     data_tuple = VyperValue.from_ptr(ptr, args_tuple_t)
